@@ -48,6 +48,31 @@ theorem ev_client_connect_tie : Generated.ev_client_connect = PinnedMpx.ev_clien
 theorem ev_client_connect1_tie : Generated.ev_client_connect1 = PinnedMpx.ev_client_connect1 := by decide
 theorem ev_client_connectRecover_tie : Generated.ev_client_connectRecover = PinnedMpx.ev_client_connectRecover := by decide
 theorem ev_reconnectTimeout_tie : Generated.ev_reconnectTimeout = PinnedMpx.ev_reconnectTimeout := by decide
+theorem ev_pool_writerState_reset_tie : Generated.ev_pool_writerState_reset = PinnedMpx.ev_pool_writerState_reset := by decide
+theorem ev_pool_writerState_init_tie : Generated.ev_pool_writerState_init = PinnedMpx.ev_pool_writerState_init := by decide
+theorem ev_pool_releaseWriterState_tie : Generated.ev_pool_releaseWriterState = PinnedMpx.ev_pool_releaseWriterState := by decide
+theorem ev_pool_writer_reset_tie : Generated.ev_pool_writer_reset = PinnedMpx.ev_pool_writer_reset := by decide
+theorem ev_pool_stack_reset_tie : Generated.ev_pool_stack_reset = PinnedMpx.ev_pool_stack_reset := by decide
+theorem ev_pool_listStack_reset_tie : Generated.ev_pool_listStack_reset = PinnedMpx.ev_pool_listStack_reset := by decide
+theorem ev_pool_messageStack_reset_tie : Generated.ev_pool_messageStack_reset = PinnedMpx.ev_pool_messageStack_reset := by decide
+theorem ev_pool_mpx_channelState_reset_tie : Generated.ev_pool_mpx_channelState_reset = PinnedMpx.ev_pool_mpx_channelState_reset := by decide
+theorem ev_pool_mpx_releaseChannelState2_tie : Generated.ev_pool_mpx_releaseChannelState2 = PinnedMpx.ev_pool_mpx_releaseChannelState2 := by decide
+theorem ev_pool_mpx_releaseChannelHandler_tie : Generated.ev_pool_mpx_releaseChannelHandler = PinnedMpx.ev_pool_mpx_releaseChannelHandler := by decide
+theorem ev_pool_rpc_channelState_reset_tie : Generated.ev_pool_rpc_channelState_reset = PinnedMpx.ev_pool_rpc_channelState_reset := by decide
+theorem ev_pool_rpc_releaseState_tie : Generated.ev_pool_rpc_releaseState = PinnedMpx.ev_pool_rpc_releaseState := by decide
+theorem ev_pool_rpc_requestState_reset_tie : Generated.ev_pool_rpc_requestState_reset = PinnedMpx.ev_pool_rpc_requestState_reset := by decide
+theorem ev_pool_rpc_releaseRequestState_tie : Generated.ev_pool_rpc_releaseRequestState = PinnedMpx.ev_pool_rpc_releaseRequestState := by decide
+theorem ev_pool_rpc_serverChannelState_reset_tie : Generated.ev_pool_rpc_serverChannelState_reset = PinnedMpx.ev_pool_rpc_serverChannelState_reset := by decide
+theorem ev_pool_rpc_releaseServerState_tie : Generated.ev_pool_rpc_releaseServerState = PinnedMpx.ev_pool_rpc_releaseServerState := by decide
+theorem ev_gen_typeWriteFunc_tie : Generated.ev_gen_typeWriteFunc = PinnedMpx.ev_gen_typeWriteFunc := by decide
+theorem ev_gen_typeDecodeFunc_tie : Generated.ev_gen_typeDecodeFunc = PinnedMpx.ev_gen_typeDecodeFunc := by decide
+theorem ev_gen_typeName_tie : Generated.ev_gen_typeName = PinnedMpx.ev_gen_typeName := by decide
+theorem ev_gen_message_field_tie : Generated.ev_gen_message_field = PinnedMpx.ev_gen_message_field := by decide
+theorem ev_gen_message_writer_field_tie : Generated.ev_gen_message_writer_field = PinnedMpx.ev_gen_message_writer_field := by decide
+theorem ev_gen_struct_decode_tie : Generated.ev_gen_struct_decode = PinnedMpx.ev_gen_struct_decode := by decide
+theorem ev_gen_struct_encode_tie : Generated.ev_gen_struct_encode = PinnedMpx.ev_gen_struct_encode := by decide
+theorem ev_gen_enum_encode_tie : Generated.ev_gen_enum_encode = PinnedMpx.ev_gen_enum_encode := by decide
+theorem ev_gen_enum_decode_tie : Generated.ev_gen_enum_decode = PinnedMpx.ev_gen_enum_decode := by decide
 theorem ev_lexer_Lex_tie : Generated.ev_lexer_Lex = PinnedMpx.ev_lexer_Lex := by decide
 theorem ev_lexer_new_tie : Generated.ev_lexer_new = PinnedMpx.ev_lexer_new := by decide
 theorem ev_lexer_Error_tie : Generated.ev_lexer_Error = PinnedMpx.ev_lexer_Error := by decide
